@@ -612,6 +612,26 @@ impl MqttShared {
     }
 }
 
+#[cfg(ntex_mqtt_verif)]
+impl MqttShared {
+    /// verification hook: number of un-acknowledged packets, number of parked window waiters
+    pub(super) fn verif_state(&self) -> (usize, usize, usize, bool, bool) {
+        let queues = self.queues.borrow();
+        (
+            queues.inflight.len(),
+            queues.waiters.len(),
+            self.cap.get(),
+            self.flags.get().contains(Flags::WRB_ENABLED),
+            self.streaming_remaining.get().is_some(),
+        )
+    }
+
+    /// verification hook: preset the packet id counter
+    pub(super) fn verif_set_idx(&self, idx: u16) {
+        self.inflight_idx.set(idx);
+    }
+}
+
 impl Encoder for MqttShared {
     type Item = Encoded;
     type Error = error::EncodeError;
